@@ -488,12 +488,14 @@ func c01ProductFamilies(thorough bool) []c01Product {
 		}})
 	}
 	// tag and attribute names split over text nodes by constructs that emit nothing or by a conditional
-	split := []string{"", "{{$x := 1}}", "{{if $.C}}/{{end}}", "{{if $.C}} {{end}}", "{{if $.C}}x{{end}}"}
+	split := []string{"", "{{$x := 1}}", "{{if $.C}}/{{end}}", "{{if $.C}} {{end}}"}
+	nsNames, nsTail := []string{"", "cript", " title", " data-x"}, []string{"", "</script>"}
 	if thorough {
-		split = append(split, "{{if $.C}}{{end}}", "{{/* c */}}", "{{if $.C}}{{else}}/{{end}}", "{{if $.C}}{{else}} {{end}}", "{{with $.C}}={{end}}", "{{if $.C}}\"{{end}}")
+		nsNames, nsTail = []string{"", "cript", "extarea", " title", " data-x"}, []string{"", "</script>", "</textarea>"}
+		split = append(split, "{{if $.C}}x{{end}}", "{{if $.C}}{{end}}", "{{/* c */}}", "{{if $.C}}{{else}}/{{end}}", "{{if $.C}}{{else}} {{end}}", "{{with $.C}}={{end}}", "{{if $.C}}\"{{end}}")
 	}
 	namesplit := c01Product{"namesplit", [][]string{
-		{"<a", "<s", "<t"}, split, {"", "cript", "extarea", " title", " data-x"}, split, {"", "/", "x"}, {"=", ""}, {"\"" + S + "\"", "'" + S + "'", ""}, {">", " >"}, {S, ""}, {"", "</script>", "</textarea>"},
+		{"<a", "<s", "<t"}, split, nsNames, split, {"", "/", "x"}, {"=", ""}, {"\"" + S + "\"", "'" + S + "'", ""}, {">", " >"}, {S, ""}, nsTail,
 	}}
 	// loop bodies (and their else branches) that end in another context than they start in, directly or through a callee
 	loops := c01Product{"loops", [][]string{
